@@ -17,8 +17,9 @@ import sys
 
 sys.path.insert(0, '/verif')
 
-from vb import check, paneldraws, par, rt, tlc
+from vb import check, exprenv, exprreplay, paneldraws, par, rt, tlc
 from vb.rt import close
+from fractions import Fraction as F
 
 PID = 'C10'
 
@@ -65,6 +66,35 @@ def replay_calc(case):
     return dict(mismatches=out, n=1)
 
 
+def replay_integrand(rec):
+    """MonteCarlo(integrand) for an ExprLang DAG with draw leaves: value per observation = the spec's mean over draws"""
+    import biogeme.expressions as ex
+    from vb import boundary
+    from vb.exprenv import Builder, beta_dict
+
+    pool = exprreplay.POOL
+    out = []
+    n = 0
+    want = exprreplay.expected_values(rec)
+    for p in range(pool.npoints):
+        if any(want[o][p] is None for o in range(pool.nrows)):
+            continue
+        e = ex.MonteCarlo(Builder(pool, rec['ops'], share=True).build(rec['root']))
+        boundary.install()
+        boundary.reset()
+        got = e.get_value_c(database=exprreplay.DB, betas=beta_dict(pool, p), number_of_draws=pool.ndraws, prepare_ids=True)
+        n += 1
+        for o in range(pool.nrows):
+            if not exprreplay.close(got[o], want[o][p]):
+                out.append(dict(what='Monte-Carlo mean of the integrand', point=p, observation=o, got=float(got[o]), want=want[o][p]))
+        table = [[[float(F(v[0], v[1])) for v in d] for d in obs] for obs in rec['table']]
+        for c in boundary.LOG:
+            if c['call'] == 'setDraws' and c['args'][0] != table:
+                out.append(dict(what='draw table at the engine boundary', got=c['args'][0], want=table))
+        boundary.reset()
+    return dict(mismatches=out, n=n)
+
+
 def reproducible(seed):
     """native draw types: the same non-zero seed gives the same values"""
     import pandas as pd
@@ -108,6 +138,26 @@ def body(chk: check.Check):
         for m in val['mismatches']:
             chk.violation('replay:' + m['what'][:50], dict(dict(rows=len(rec['ids']), R=rec['R'], formula=rec['formula']), **{k: v for k, v in m.items() if k not in ('ids', 'xs')}),
                           match=dict(kind='value'))
+    # general integrands: ExprLang DAGs over draw leaves (every operator kind above the draws), Monte-Carlo at the root
+    dpool = exprenv.pool_draws()
+    salt = chk.seed % 9973
+    ints = []
+    for max_ops, thin in ([(1, (1,)), (2, (3, 5))] if quick else [(1, (1,)), (2, (2, 3)), (3, (6, 8, 12))]):
+        r = tlc.run('MCExprGen', dpool.cfg(max_ops, ['SigSound', 'EmitInv'], salt=salt), extra_modules={'MCExprGen': dpool.module(thin=thin)}, workers='auto', timeout=2400)
+        chk.add_tlc(f'ExprLang with draw leaves: {max_ops} operator(s), thin {thin}', r)
+        nl = len(dpool.leaves)
+        ints += [x for x in r.emitted if any(i in (4, 5) for i in exprenv.reach(x['ops'], x['root'], nl))]
+    exprreplay.init(dpool)
+    for rec, (st, val) in zip(ints, par.pmap(replay_integrand, ints, chunk=40, timeout=900)):
+        desc = exprreplay.describe(rec)
+        chk.replayed += 1
+        if st != 'ok':
+            chk.violation(f'integrand:{st}', dict(formula=desc, error=val), match=dict(kind='exception'))
+            continue
+        chk.count(('integrand', desc), val['n'])
+        for m in val['mismatches']:
+            chk.violation('integrand:' + m['what'][:40], dict(formula=desc, ops=rec['ops'], **m), match=dict(kind='value', features=exprenv.features(rec['ops'], rec['root'], len(dpool.leaves))))
+    chk.extra['general_integrands'] = len(ints)
     results = par.pmap(replay_calc, cases, chunk=25, timeout=900)
     for case, (st, val) in zip(cases, results):
         chk.replayed += 1
